@@ -426,131 +426,99 @@ Proof.
   pose proof (parse_value_never_unreachable vp). destruct (parse_value_path vp); congruence.
 Qed.
 
-(* ---------- the parser panics only on index overflow ---------- *)
-(* every run of consecutive digits has at most k units; cur = length of the run being read *)
-Fixpoint digit_runs_le (k cur : nat) (t : text) : bool :=
-  match t with
-  | [] => true
-  | c :: r => if is_digit c then Nat.leb (S cur) k && digit_runs_le k (S cur) r
-              else digit_runs_le k 0 r
-  end.
-
-Local Open Scope Z_scope.
-
-Definition idx_inv (st : jstate) (cur : nat) : Prop :=
-  match st with
-  | JIndex v => 0 <= v < 10 ^ Z.of_nat cur
-  | JNegIndex v => - 10 ^ Z.of_nat cur < v <= 0
-  | _ => True
-  end.
-
-Lemma pow10_18 : 10 ^ 18 < 2 ^ 63. Proof. reflexivity. Qed.
-
-Lemma pow10_le (a : nat) : (a <= 18)%nat -> 10 ^ Z.of_nat a <= 10 ^ 18.
-Proof. intros H. apply Z.pow_le_mono_r; lia. Qed.
-
-Lemma digit_runs_step c r cur :
-  digit_runs_le 18 cur (c :: r) = true ->
-  (is_digit c = true /\ (S cur <= 18)%nat /\ digit_runs_le 18 (S cur) r = true)
-  \/ (is_digit c = false /\ digit_runs_le 18 0 r = true).
+(* ---------- the parser never panics ---------- *)
+Lemma jit_no_panic_aux n : forall cs st out, (length cs <= n)%nat -> jit st cs out <> PPanic.
 Proof.
-  cbn [digit_runs_le]. destruct (is_digit c); intros H.
-  - left. apply andb_true_iff in H as [H1 H2]. apply Nat.leb_le in H1. auto.
-  - right. auto.
-Qed.
-
-Lemma special_not_digit c : (c =? 92)%N || (c =? 34)%N = true -> is_digit c = false.
-Proof. intros H. cls. Qed.
-
-Lemma jit_no_panic_aux n : forall cs st out cur,
-  (length cs <= n)%nat -> digit_runs_le 18 cur cs = true -> idx_inv st cur ->
-  jit st cs out <> PPanic.
-Proof.
-  induction n as [|n IH]; intros cs st out cur Hlen Hruns Hinv.
+  induction n as [|n IH]; intros cs st out Hlen.
   - destruct cs; [|cbn in Hlen; lia]. destruct st; cbn; discriminate.
   - destruct cs as [|c r]; [destruct st; cbn; discriminate|].
     cbn in Hlen. assert (Hr : (length r <= n)%nat) by lia.
-    (* whatever the next state, if it is not an index state the invariant is trivial *)
-    assert (Hgen : forall st' out', idx_inv st' 0%nat -> idx_inv st' 1%nat ->
-                   (forall k, idx_inv st' k) -> jit st' r out' <> PPanic).
-    { intros st' out' _ _ Hall. destruct (digit_runs_step c r cur Hruns) as [(_ & _ & H)|(_ & H)];
-        eapply IH; eauto. }
-    assert (Hplain : forall st' out', (forall k, idx_inv st' k) -> jit st' r out' <> PPanic).
-    { intros. apply Hgen; auto. }
-    assert (Hesc : forall buf out', match r with
-                                    | [] => True
-                                    | c2 :: r2 => (c2 =? 92)%N || (c2 =? 34)%N = true ->
-                                                  jit (JEscQuote buf) r2 out' <> PPanic
-                                    end).
-    { intros buf out'. destruct r as [|c2 r2]; [exact I|]. intros Hs.
-      pose proof (special_not_digit c2 Hs) as Hnd.
-      assert (H0 : digit_runs_le 18 0 r2 = true).
-      { destruct (digit_runs_step c (c2 :: r2) cur Hruns) as [(_ & _ & H)|(_ & H)];
-          cbn [digit_runs_le] in H; rewrite Hnd in H; exact H. }
-      eapply IH; eauto; [cbn in Hr; lia | exact I]. }
     destruct st; cbn [jit];
       repeat match goal with
              | |- (if ?b then _ else _) <> _ => destruct b eqn:?
+             | |- (match checked ?z with _ => _ end) <> _ => destruct (checked z)
+             | |- (match esc_replay ?a ?b with _ => _ end) <> _ => destruct (esc_replay a b)
              | |- PErr <> _ => discriminate
              | |- PUnreachable <> _ => discriminate
-             | |- jit JEventRoot r _ <> _ => apply Hplain; intros; exact I
-             | |- jit JStart r _ <> _ => apply Hplain; intros; exact I
-             | |- jit JContinue r _ <> _ => apply Hplain; intros; exact I
-             | |- jit JDot r _ <> _ => apply Hplain; intros; exact I
-             | |- jit JIndexStart r _ <> _ => apply Hplain; intros; exact I
-             | |- jit (JField _) r _ <> _ => apply Hplain; intros; exact I
-             | |- jit (JQuote _) r _ <> _ => apply Hplain; intros; exact I
-             | |- jit (JEscQuote _) r _ <> _ => apply Hplain; intros; exact I
-             end.
-    + (* JIndexStart, digit *)
-      destruct (digit_runs_step c r cur Hruns) as [(Hd & Hle & H)|(Hd & _)]; [|congruence].
-      eapply IH; eauto. cbn [idx_inv]. pose proof (digit_val_range c Hd).
-      assert (10 ^ 1 <= 10 ^ Z.of_nat (S cur)) by (apply Z.pow_le_mono_r; lia).
-      change (10 ^ 1) with 10 in *. lia.
-    + (* JIndexStart, minus *)
-      destruct (digit_runs_step c r cur Hruns) as [(Hd & _)|(Hd & H)].
-      * exfalso. clear - Hd Heqb0. cls.
-      * eapply IH; eauto. cbn [idx_inv]. cbn. lia.
-    + (* JNegIndex, digit *)
-      destruct (digit_runs_step c r cur Hruns) as [(Hd & Hle & H)|(Hd & _)]; [|congruence].
-      cbn [idx_inv] in Hinv. pose proof (digit_val_range c Hd) as Hdv.
-      assert (Hp : 10 ^ Z.of_nat (S cur) = 10 * 10 ^ Z.of_nat cur)
-        by (rewrite Nat2Z.inj_succ, Z.pow_succ_r by lia; reflexivity).
-      pose proof (pow10_le (S cur) Hle) as Hb. pose proof pow10_18.
-      rewrite checked_ok by (unfold isize_min, isize_max; lia).
-      rewrite checked_ok by (unfold isize_min, isize_max; lia).
-      eapply IH; eauto. cbn [idx_inv]. lia.
-    + (* JIndex, digit *)
-      destruct (digit_runs_step c r cur Hruns) as [(Hd & Hle & H)|(Hd & _)]; [|congruence].
-      cbn [idx_inv] in Hinv. pose proof (digit_val_range c Hd) as Hdv.
-      assert (Hp : 10 ^ Z.of_nat (S cur) = 10 * 10 ^ Z.of_nat cur)
-        by (rewrite Nat2Z.inj_succ, Z.pow_succ_r by lia; reflexivity).
-      pose proof (pow10_le (S cur) Hle) as Hb. pose proof pow10_18.
-      rewrite checked_ok by (unfold isize_min, isize_max; lia).
-      rewrite checked_ok by (unfold isize_min, isize_max; lia).
-      eapply IH; eauto. cbn [idx_inv]. lia.
-    + (* JQuote, backslash *)
-      destruct (esc_replay [] acc) as [t|]; [|discriminate].
-      destruct r as [|c2 r2]; [discriminate|].
-      destruct ((c2 =? 92)%N || (c2 =? 34)%N) eqn:Es; [|discriminate].
-      apply (Hesc (t ++ [c2]) out). auto.
-    + (* JEscQuote, backslash *)
-      destruct r as [|c2 r2]; [discriminate|].
-      destruct ((c2 =? 92)%N || (c2 =? 34)%N) eqn:Es; [|discriminate].
-      apply (Hesc (buf ++ [c2]) out). auto.
+             | |- jit _ r _ <> _ => apply IH; auto
+             end;
+      (destruct r as [|c2 r2]; [discriminate|];
+       destruct ((c2 =? 92) || (c2 =? 34)); [|discriminate];
+       apply IH; cbn in Hr; lia).
 Qed.
 
-Theorem no_panic_short_digit_runs t :
-  digit_runs_le 18 0 t = true -> parse_value_path t <> PPanic /\ parse_target_path t <> PPanic.
+Theorem parse_never_panics t : parse_value_path t <> PPanic /\ parse_target_path t <> PPanic.
 Proof.
-  intros H. split.
-  - unfold parse_value_path. eapply jit_no_panic_aux; eauto. exact I.
-  - unfold parse_target_path.
-    assert (Hvp : digit_runs_le 18 0 (snd (get_target_prefix t)) = true).
-    { destruct t as [|c r]; [exact H|]. cbn [get_target_prefix].
-      destruct (c =? 46)%N; [exact H|]. destruct (c =? 37)%N eqn:E; [|exact H].
-      cbn [snd]. cbn [digit_runs_le] in H. apply N.eqb_eq in E. subst c. exact H. }
-    destruct (get_target_prefix t) as [pre vp]. cbn [snd] in Hvp.
-    assert (Hn : parse_value_path vp <> PPanic) by (unfold parse_value_path; eapply jit_no_panic_aux; eauto; exact I).
-    destruct (parse_value_path vp); congruence.
+  assert (H : forall u, parse_value_path u <> PPanic) by (intros u; unfold parse_value_path; eapply jit_no_panic_aux; eauto).
+  split; [apply H|]. unfold parse_target_path. destruct (get_target_prefix t) as [pre vp].
+  pose proof (H vp). destruct (parse_value_path vp); congruence.
 Qed.
+
+(* ---------- an index that does not fit isize is invalid syntax ---------- *)
+Local Open Scope Z_scope.
+
+Lemma checked_none z : ~ (isize_min <= z <= isize_max) -> checked z = None.
+Proof.
+  intros H. unfold checked. destruct (in_isize z) eqn:E; [|reflexivity]. apply in_isize_iff in E. contradiction.
+Qed.
+
+Lemma jit_index_overflow ds : forall v r out,
+  forallb is_digit ds = true -> 0 <= v <= isize_max -> isize_max < acc_pos ds v ->
+  jit (JIndex v) (ds ++ r) out = PErr.
+Proof.
+  induction ds as [|d ds IH]; intros v r out Hd Hv Hbig.
+  - change (acc_pos [] v) with v in Hbig. lia.
+  - cbn in Hd. apply andb_true_iff in Hd as [Hd1 Hd2]. pose proof (digit_val_range d Hd1) as Hr.
+    change (acc_pos (d :: ds) v) with (acc_pos ds (v * 10 + digit_val d)) in Hbig.
+    cbn [app jit]. rewrite Hd1.
+    destruct (Z_le_gt_dec (v * 10) isize_max) as [Hm|Hm].
+    + rewrite checked_ok by (unfold isize_min in *; unfold isize_max in *; lia).
+      destruct (Z_le_gt_dec (v * 10 + digit_val d) isize_max) as [Hs|Hs].
+      * rewrite checked_ok by (unfold isize_min in *; unfold isize_max in *; lia).
+        apply IH; auto. lia.
+      * rewrite checked_none by lia. reflexivity.
+    + rewrite checked_none by lia. reflexivity.
+Qed.
+
+Lemma jit_negindex_overflow ds : forall v r out,
+  forallb is_digit ds = true -> isize_min <= v <= 0 -> acc_neg ds v < isize_min ->
+  jit (JNegIndex v) (ds ++ r) out = PErr.
+Proof.
+  induction ds as [|d ds IH]; intros v r out Hd Hv Hbig.
+  - change (acc_neg [] v) with v in Hbig. lia.
+  - cbn in Hd. apply andb_true_iff in Hd as [Hd1 Hd2]. pose proof (digit_val_range d Hd1) as Hr.
+    change (acc_neg (d :: ds) v) with (acc_neg ds (v * 10 - digit_val d)) in Hbig.
+    cbn [app jit]. rewrite Hd1.
+    destruct (Z_le_gt_dec isize_min (v * 10)) as [Hm|Hm].
+    + rewrite checked_ok by (unfold isize_min in *; unfold isize_max in *; lia).
+      destruct (Z_le_gt_dec isize_min (v * 10 - digit_val d)) as [Hs|Hs].
+      * rewrite checked_ok by (unfold isize_min in *; unfold isize_max in *; lia).
+        apply IH; auto. lia.
+      * rewrite checked_none by lia. reflexivity.
+    + rewrite checked_none by lia. reflexivity.
+Qed.
+
+(* the decimal text of an integer outside isize, written as an index anywhere a segment may begin, is rejected *)
+Theorem index_out_of_range_invalid i r out :
+  in_isize i = false -> jit JIndexStart (render_int i ++ r) out = PErr.
+Proof.
+  intros Hi. assert (Hn : ~ (isize_min <= i <= isize_max)).
+  { intros H. apply in_isize_iff in H. congruence. }
+  unfold render_int. destruct (Z.ltb_spec i 0) as [Hneg|Hpos].
+  - destruct (render_nat_spec (- i)) as (d & ds & E & Hd & Hv); [lia|].
+    rewrite E. rewrite <- app_comm_cons. rewrite jit_indexstart_minus.
+    apply jit_negindex_overflow; auto; [unfold isize_min; lia|].
+    replace 0 with (- 0) by lia. rewrite acc_neg_pos, Hv. unfold isize_min, isize_max in *. lia.
+  - destruct (render_nat_spec i) as (d & ds & E & Hd & Hv); [lia|].
+    rewrite E. cbn [forallb] in Hd. apply andb_true_iff in Hd as [Hd1 Hd2].
+    rewrite <- app_comm_cons. rewrite jit_indexstart_digit by auto.
+    pose proof (digit_val_range d Hd1).
+    apply jit_index_overflow; auto; [unfold isize_max; lia|].
+    change (acc_pos (d :: ds) 0) with (acc_pos ds (0 * 10 + digit_val d)) in Hv.
+    replace (0 * 10 + digit_val d) with (digit_val d) in Hv by lia. rewrite Hv.
+    unfold isize_min, isize_max in *. lia.
+Qed.
+
+Theorem value_index_out_of_range_invalid i r :
+  in_isize i = false -> parse_value_path (91%N :: render_int i ++ r) = PErr.
+Proof. intros Hi. unfold parse_value_path. cbn [jit]. apply index_out_of_range_invalid; auto. Qed.
